@@ -72,6 +72,13 @@ CHECKS = {
         note=TRUST + "; 'identical overlap matrix' follows from equality of the basis functions in order + determinism, the integral code itself is C06; flattening lemma stated, not mechanised",
         technique="contract-based deductive verification (AST symbolic execution -> z3 VCs, generic-iteration loop rule, induction lemmas) + bounded random bases/orbitals on the real functions",
     ),
+    "C01": dict(
+        category="other",
+        text="Decided from the current source: every expression in the five wavefunction writers that combines the (permutation, signs) pair of convert_conventions (contract proved in C10) is evaluated by numpy on matrices of sympy symbols for all 24 x 16 permutations and sign vectors of size 4 and must equal rows_i = s_i coeffs[p_i] (orbitals) resp. D'_ij = s_i s_j D[p_i,p_j] (FCHK densities) exactly - complete for n = 4 and all coefficient values, other sizes by parametricity of numpy indexing (assumption); the basis handed to get_mocoeff_scales in the WFN/WFX writers carries the conventions the coefficients were converted to (AST contract). Bounded: the real fchk.prepare_dump is run on every occupation pattern with <= 5 orbitals and must accept only what FCHK can express; bounded/wfn_probe.py writes random wavefunctions (shell order, conventions incl. every format module's and random permutations with sign flips, segmented / SP / generalized contractions, restricted / ROHF / occs_aminusb / unrestricted, with and without virtuals, ghost and ECP centres, pure / Cartesian / mixed) with every writer and allow_changes setting, reloads them and compares nuclei, occupations, energies, spin, orbital values at probe points and FCHK densities with an evaluator independent of iodata; failing cases are minimised feature by feature. Reader-side reconstruction is only covered by the bounded part, hence `other`. Five genuine defects were repaired (see known_findings.json), five groups are open known findings (Molekel with ECP / ghost / ROHF, WFN core charges).",
+        design_ref="DESIGN.md 6/C01",
+        note="trusted: numpy parametricity in n, contracts of C10/C14/C06, bounded/overlap_oracle.py as definition of the basis functions; command-line path not exercised separately",
+        technique="use-site contracts for the convention conversion decided by exhaustive symbolic evaluation (numpy + sympy, n = 4), AST contract for normalisation scales, small-scope exhaustive guard check, randomised conversion probe with an independent orbital evaluator (bounded)",
+    ),
     "C02": dict(
         category="other",
         text="Decided for all inputs from the current source: inverse tables (element symbols, bond types, FCHK run types through the writer's own header code, FCHK quadrupole permutation) by exhaustive evaluation; unpack(pack(A)) = A for every size n and symmetric A (z3 lemma over the C03 contract of _triangle_to_dense, row-major order of np.tril_indices checked to n = 40, the three writer sites and the reader calls matched in the AST); FCIDUMP index coverage for every norb (z3 over the loop bounds, triangle condition and index orders extracted from dump_one, load_one and set_four_index_element: every element of an 8-fold symmetric array lies in the orbit of a written record and the printed value belongs to that orbit); for every record the 12 text writers print: adjacent fields read by a white-space split are separated, fixed-column reader slices (PDB ATOM, WFN) hold whole writer fields, every factor applied to a printed value is a unit constant whose inverse the reader applies, no thousands separators. Bounded: dump -> load -> compare on generated objects of each format's domain (1..101 atoms quick / 1..12000 thorough, column-filling coordinates, all bond types, optional attributes, XYZ user columns, cube memory layouts, FCHK with all optional sections and run types) and on every corpus file converted to every format that accepts it. The value-level behaviour of the remaining reader code is only exercised by the bounded part, hence `other`. Open known findings: SDF touching columns (7), FCHK header columns (2), FCHK required-only object.",
